@@ -2,7 +2,7 @@
 C30  Droplet.tla: what a decimal text denotes (digit-sequence arithmetic, no 32-bit limits), when it is an amount, the text of
      a value.  MCDroplet checks the definitions on their own exhaustively for a small instance (2 places, values <= 1299: every
      value, every text of length <= 5 over {0,1,3,9,.,-,+,e}) against native integers.  record -> validate: droplet.FromString
-     (under a 3 s watchdog) and droplet.ToString (with the parse of its result) on boundary-placed and random values and on
+     (under a 6 s watchdog) and droplet.ToString (with the parse of its result) on boundary-placed and random values and on
      texts built near such values (exact, seventh decimal, padded, shifted point, exponent forms incl. huge exponents, foreign
      bytes); TLC evaluates ParseVerdict / FormatVerdict on every record.
 C15  Base58.tla: the big-integer definition (schoolbook base conversion of digit sequences), the bijection between byte strings
@@ -68,5 +68,5 @@ def run(res, prop, tier, seed, work, replay=None):
     })
     res.assumptions += ["sampling, not proof: the input space is unbounded; the exhaustive part is the definitions on a small instance",
                         "C15: SHA-256 is taken from Go's crypto/sha256 (the checksum's input bytes are checked against the definition by TLC)",
-                        "C30: a parse that has not returned after 3 s counts as not returning; texts without an integer digit ('.5') may but need not be accepted",
+                        "C30: a parse that has not returned after 6 s counts as not returning; texts without an integer digit ('.5') may but need not be accepted",
                         "TLC, SANY and the CommunityModules Json reader are trusted"]
